@@ -215,6 +215,20 @@ def run(chk):
                 l2 = re.sub(rb'(\]|#:\w+)(\s*)[-+]?[0-9]+', lambda m: m.group(1) + m.group(2) + v_, ls_[i], count=1)
                 for j in [q + 1 for q in hdr if q >= i][:6]:
                     inputs.append(('vd', name, b'\n'.join(ls_[:j] + [l2] + ls_[j:])))
+    # reference impedances no Touchstone file can have; non-finite frequencies; a Zin vector of zero ports with a z0 line
+    for r_ in ('0', '-50', 'nan', 'inf', '-0.0', '1e999'):
+        inputs.append(('vd', 'x.s1p', ('# HZ Z RI R %s\n1e9 75 10\n2e9 70 12\n' % r_).encode()))
+        inputs.append(('vd', 'x.s2p', ('# HZ S RI R %s\n1e9 .1 0 .2 0 .3 0 .4 0\n' % r_).encode()))
+        inputs.append(('vd', 'x.ts', ('[Version] 2.0\n# HZ S RI R 50\n[Number of Ports] 2\n[Two-Port Data Order] 12_21\n[Number of Frequencies] 1\n[Reference] 50 %s\n[Network Data]\n1e9 .1 0 .2 0 .3 0 .4 0\n[End]\n' % r_).encode()))
+    for f_ in ('nan', 'inf', '-inf', '-1', '1e999'):
+        for name, data in cal_seeds[:2]:
+            m_ = list(re.finditer(rb'(?m)^(\s*- f:\s*)(\S+)', data))
+            for x_ in m_[:3]:
+                inputs.append(('cal', name, data[:x_.start(2)] + f_.encode() + data[x_.end(2):]))
+        inputs.append(('vd', 'x.npd', ('#NPD\n#:ports 1\n#:frequencies 2\n#:parameters Sri\n1e9 .1 .2\n%s .3 .4\n' % f_).encode()))
+    for hdr_ in ('#:ports 0\n#:frequencies 0\n#:parameters zinri\n#:z0\n', '#:ports 0\n#:frequencies 1\n#:parameters zinri\n#:z0 PER-FREQUENCY\n1e9\n',
+                 '#:ports 0\n#:frequencies 1\n#:parameters Sri\n#:z0\n1e9\n', '#:z0 50 0j\n#:ports 0\n#:frequencies 0\n#:parameters zinri\n'):
+        inputs.append(('vd', 'x.npd', hdr_.encode()))
     # a .vnacal whose properties contain an alias to an enclosing node
     for name, data in cal_seeds[:2]:
         if b'properties:' in data:
@@ -229,7 +243,7 @@ def run(chk):
         x = 'x' + data.hex() if data else '-'
         if kind == 'vd':
             # after the attempt: the object must answer, accept a good file, and be freed without residue
-            return ['vd 0 alloc', 'vd 0 loadstr %s %s' % (h(name), x), 'vd 0 digest', 'vd 0 set_filetype 3', 'vd 0 set_format -', 'vd 0 set_fprecision 1000', 'vd 0 set_dprecision 1000',
+            return ['vd 0 alloc', 'vd 0 loadstr %s %s' % (h(name), x), 'vd 0 digest', 'vd 0 cksave ' + h('x.ts' if name != 'x.npd' else name), 'vd 0 set_filetype 3', 'vd 0 set_format -', 'vd 0 set_fprecision 1000', 'vd 0 set_dprecision 1000',
                     'vd 0 savestr ' + h('r.npd'), 'vd 0 loadstr %s x%s' % (h('g.npd'), good_npd), 'vd 0 digest', 'vd 0 free', 'cal live']
         if kind == 'cal':
             return ['cal loadstr 1 %s' % x, 'cal get_calibration_end 1', 'cal savestr 1', 'cal get_info 1 0', 'cal get_info 1 1', 'cal free 1', 'cal live']
@@ -314,7 +328,7 @@ def run(chk):
         sc = script(inp)
         tag = '%d bytes as %s' % (len(data), name if kind != 'yaml' else 'YAML text')
         if kind == 'vd':
-            load, dig, save, gl, gd, live = o[1], o[2], o[7], o[8], o[9], o[11]
+            load, dig, ck, save, gl, gd, live = o[1], o[2], o[3], o[8], o[9], o[10], o[12]
             d = c06.parse_digest(dig)
             if live != 'ok live=0':
                 chk.violation('residue-vd', '%s: allocations remain after vnadata_free: %s' % (tag, live), sc)
@@ -328,6 +342,9 @@ def run(chk):
                     chk.violation('errno-vd', '%s: rejected with errno %s (expected EBADMSG, ENOPROTOOPT or a system error)' % (tag, e), sc)
                 else:
                     chk.count('vd_rejected_' + e)
+                # no partial object is left behind: the object is empty after a refused file
+                if d is None or (d['type'], d['rows'], d['cols'], d['nf']) != (0, 0, 0, 0):
+                    chk.violation('partial-vd', '%s: rejected, but the object still holds part of what was read: %s' % (tag, dig[:120]), sc)
                 continue
             t, r, c, nf = d['type'], d['rows'], d['cols'], d['nf']
             okdims = (t in (1, 4, 5) and r == c) or (t in (2, 3, 6, 7, 8, 9) and r == 2 and c == 2) or (t == 10 and r == 1)
@@ -337,6 +354,10 @@ def run(chk):
             if c >= 1 and nf >= 1:
                 if not save.startswith('ok'):
                     chk.violation('unsavable-vd', '%s: accepted, but the object cannot be saved: %s' % (tag, save[:60]), sc)
+                    continue
+                # what was loaded from a Touchstone file (either version) can be written back as a .ts file
+                if name != 'x.npd' and d['ft'] in (1, 2) and not ck.startswith('ok'):
+                    chk.violation('unsavable-ts', '%s: accepted as a Touchstone file, but the object cannot be saved as one (x.ts): %s' % (tag, ck[:60]), sc)
                     continue
                 reload_meta.append((i, dig))
                 reload_lines += ['vd 0 alloc', 'vd 0 loadstr %s %s' % (h('r.npd'), save.split()[-1]), 'vd 0 digest', 'vd 0 free']
@@ -367,6 +388,28 @@ def run(chk):
                 continue
             if not save.startswith('ok'):
                 chk.violation('unsavable-cal', '%s: accepted, but vnacal_save of the result fails: %s' % (tag, save[:60]), sc)
+                continue
+            # strictly ascending, finite calibration frequencies (read from what vnacal_save wrote for the accepted object)
+            try:
+                txt_ = bytes.fromhex(save.split()[-1][1:]).decode('utf-8', 'replace')
+            except ValueError:
+                txt_ = ''
+            prev_, badf = None, None
+            for ln_ in txt_.split('\n'):
+                if re.match(r'^\s*-?\s*name:', ln_):
+                    prev_ = None
+                m_ = re.match(r'^\s*-?\s*f:\s*(\S+)', ln_)
+                if m_:
+                    try:
+                        fv_ = float(m_.group(1))
+                    except ValueError:
+                        fv_ = float('nan')
+                    if not (fv_ == fv_ and abs(fv_) != float('inf') and fv_ >= 0 and (prev_ is None or fv_ > prev_)):
+                        badf = ln_.strip()
+                        break
+                    prev_ = fv_
+            if badf:
+                chk.violation('frequencies-cal', '%s: accepted, but the calibration frequencies are not finite and strictly ascending: %r' % (tag, badf), sc)
                 continue
             reload_meta.append((i, save.split()[-1]))
             reload_lines += ['cal loadstr 1 %s' % save.split()[-1], 'cal savestr 1', 'cal free 1', 'pt 0 live']
